@@ -273,7 +273,9 @@ def wl_history(ctx, rng, i):
     os.makedirs(fsdir)
     try:
         mem = stix2.MemoryStore()
-        fs = stix2.FileSystemStore(fsdir, allow_custom=True)
+        bundlify = (i % 3 == 1)
+        fs = stix2.FileSystemStore(fsdir, allow_custom=True, bundlify=bundlify)
+        ctx.see("filesystem options", "bundlify=%s" % bundlify)
         model = ListModel()
         forms_used, kinds = {}, {}
         history = []
